@@ -277,3 +277,12 @@ func BytesEq(a, b []byte) bool { return string(a) == string(b) }
 
 // StrEq compares strings (one term in the engine).
 func StrEq(a, b string) bool { return a == b }
+
+// MarshalOpaque / UnmarshalOpaque / UnpackAnyOpaque exist only inside the engine (models.Codec).
+func MarshalOpaque(msg interface{}) []byte { panic("rt.MarshalOpaque: engine only") }
+
+func UnmarshalOpaque(bz []byte, ptr interface{}) bool { panic("rt.UnmarshalOpaque: engine only") }
+
+func UnpackAnyOpaque(any interface{}, iface interface{}) bool {
+	panic("rt.UnpackAnyOpaque: engine only")
+}
